@@ -229,6 +229,9 @@ def step(ms, op):
     ns = ms.clone()
     ex = Expect()
     k = op[0]
+    if k == "fsetset":
+        # an assignment whose first attempt fails at a container write and which is then repeated: same end state as the assignment
+        return step(ms, ("set", op[1], op[2]))
     if k in ("set", "def", "iop", "setc"):
         path = op[1]
         structural = False
